@@ -50,6 +50,9 @@ def main():
         allp = True
     seeds = args or sorted(os.listdir(os.path.join(VERIF, SEEDDIR[0])))
     cl = claimed()
+    only = [a[7:].split(',') for a in sys.argv if a.startswith('--only=')]
+    if only:
+        cl = [p for p in cl if p in only[0]]      # --only=C16,C17: restrict the checks that are run
     jobs = []
     for s in seeds:
         own = s.split('-')[0]
